@@ -177,7 +177,8 @@ def variant_dir(scratch, ob):
     renames = tuple(ob.get("rename_selfcalls", ()))
     only = tuple(ob.get("loops_only", ()))
     wide = ob.get("char", "A") == "W" and ob.get("route") != "L"
-    key = hashlib.sha1(repr((loops, renames, only, wide)).encode()).hexdigest()[:10]
+    watch = tuple(ob.get("watch", ()))
+    key = hashlib.sha1(repr((loops, renames, only, wide, watch)).encode()).hexdigest()[:10]
     d = os.path.join(scratch, "v_" + key)
     marker = os.path.join(d, ".done")
     if os.path.exists(marker):
@@ -198,6 +199,8 @@ def variant_dir(scratch, ob):
     for fname, funcs in renames:
         n = S.rename_selfcalls(tmp, fname, funcs)
         injected.append("%s: %d self-calls redirected to twin" % (fname, n))
+    if watch:
+        injected.extend(S.inject_watch(tmp, watch))
     injected.extend(S.inject_waivers(tmp))
     if wide:
         n = S.rewrite_wide_literals(tmp)
